@@ -9,6 +9,7 @@ package main
 import (
 	"fmt"
 	"go/types"
+	"sort"
 	"strings"
 
 	"golang.org/x/tools/go/ssa"
@@ -19,7 +20,7 @@ func (fc *fnCtx) chanRegions(st *State) (ln, cp, cl string) {
 }
 
 // checkGuarded: a load or store of a field declared `guarded_by m: ...` needs held(&base.m).
-func (fc *fnCtx) checkGuarded(st *State, fr *frame, ins ssa.Instruction, ad *Addr, write bool) {
+func (fc *fnCtx) checkGuarded(st *State, fr *frame, ins ssa.Instruction, ad *Addr, write bool) (mutexAddr string) {
 	if ad == nil || ad.Kind != "field" || ad.GT == nil {
 		return
 	}
@@ -61,6 +62,46 @@ func (fc *fnCtx) checkGuarded(st *State, fr *frame, ins ssa.Instruction, ad *Add
 	goal := fmt.Sprintf("(or (select %s %s) (>= (atime %s) %s))", held, maddr, ad.Base, fc.top.entryT)
 	fc.emit(st, fc.oblName(fr, fmt.Sprintf("guarded.%s@%s", kind, fc.instrLabel(fr, ins))), "guarded",
 		fmt.Sprintf("%s of %s.%s happens with %s held (or on an object this call allocated)", kind, named.Obj().Name(), fname, mutex), fc.posOf(ins), goal, []string{"C04", "C19"})
+	if st.ghost == nil {
+		st.ghost = map[string]string{}
+	}
+	st.ghost["owner:"+maddr] = ad.Base
+	return maddr
+}
+
+// checkObjGuard: an object that was read out of a guarded field is itself protected by that mutex —
+// a method call on it needs the mutex held at the time of the call (not only when the field was read),
+// unless the owner was allocated by this very call.
+func (fc *fnCtx) checkObjGuard(st *State, fr *frame, call *ssa.Call, recv Val) {
+	g, ok := st.ghost["objguard:"+recv.T]
+	if !ok {
+		return
+	}
+	held := fc.region(st, "M.held", "(Array U Bool)")
+	goal := sel(held, g)
+	if owner, ok := st.ghost["owner:"+g]; ok {
+		goal = fmt.Sprintf("(or %s (>= (atime %s) %s))", goal, owner, fc.top.entryT)
+	}
+	fc.emit(st, fc.oblName(fr, fmt.Sprintf("guarded.call@%s", fc.instrLabel(fr, call))), "guarded",
+		"a method call on an object read from a guarded field happens with the guarding mutex held", fc.posOf(call), goal, []string{"C04", "C19"})
+}
+
+// noLockWhileBlocking: a channel operation that may block must not be reached with a mutex held that this
+// function acquired (or that guards the receiver): the thread that could unblock it needs that mutex.
+func (fc *fnCtx) noLockWhileBlocking(st *State, fr *frame, ins ssa.Instruction, what string) {
+	held := fc.region(st, "M.held", "(Array U Bool)")
+	var conj []string
+	for k, v := range st.ghost {
+		if strings.HasPrefix(k, "lockseen:") {
+			conj = append(conj, not(sel(held, v)))
+		}
+	}
+	if len(conj) == 0 {
+		return
+	}
+	sort.Strings(conj)
+	fc.emit(st, fc.oblName(fr, fmt.Sprintf("nolock.%s@%s", what, fc.instrLabel(fr, ins))), "guarded",
+		"no mutex acquired by this call is held at a channel operation that may block", fc.posOf(ins), and(conj...), []string{"C04", "C05"})
 }
 
 // globalMutexAddr: the address term of a package-level mutex variable (what Lock/Unlock receive).
@@ -124,6 +165,7 @@ func (fc *fnCtx) chanSend(st *State, fr *frame, ins *ssa.Send) {
 	fc.runtimeCheck(st, fr, ins, "closedchan", sel(cl, ch.T))
 	full := fmt.Sprintf("(>= (select %s %s) (select %s %s))", ln, ch.T, cp, ch.T)
 	if fc.eff.flags["mayblock"] {
+		fc.noLockWhileBlocking(st, fr, ins, "send")
 		// the call may park here; it continues only when there is room
 		st.pc = append(st.pc, not(full), not(eq(ch.T, "nil")))
 	} else {
@@ -141,6 +183,7 @@ func (fc *fnCtx) chanRecv(st *State, fr *frame, ins *ssa.UnOp) {
 	closed := sel(cl, ch.T)
 	wouldBlock := and(empty, not(closed))
 	if fc.eff.flags["mayblock"] {
+		fc.noLockWhileBlocking(st, fr, ins, "recv")
 		st.pc = append(st.pc, not(wouldBlock), not(eq(ch.T, "nil")))
 	} else {
 		fc.emit(st, fc.oblName(fr, "noblock.recv@"+fc.instrLabel(fr, ins)), "noblock", "the channel receive cannot block", fc.posOf(ins), and(not(wouldBlock), not(eq(ch.T, "nil"))), nil)
